@@ -20,7 +20,11 @@ EXEMPT = {
     "reactivex/operators/_replay.py::replay_": "multicasting operator (excluded by the property)",
     "reactivex/operators/_publishvalue.py::publish_value_": "multicasting operator (excluded by the property)",
     "reactivex/operators/_multicast.py::multicast_": "multicasting operator (excluded by the property)",
+    "reactivex/operators/_partition.py::partition_": "built on publish + ref_count by design (two outputs share one source subscription)",
+    "reactivex/operators/_partition.py::partition_indexed_": "built on publish + ref_count by design",
 }
+MULTICAST_OPS = {"share", "publish", "replay", "ref_count", "multicast", "publish_value", "auto_connect",
+                 "share_", "publish_", "replay_", "ref_count_", "multicast_", "publish_value_", "auto_connect_"}
 
 
 def top_level(S):
@@ -46,8 +50,29 @@ def check(repo: Repo, rep: Report) -> None:
         "is not state",
     ]
     rep.rule("E1-no-early-state", "no binding allocated at L0/L1 is mutated or (if one-shot) consumed at stage >= L2", floor=400)
+    rep.rule("E1-no-internal-multicast", "cold (non-multicast) operators do not share a source or timer between their "
+                                         "subscriptions through share/publish/replay/ref_count/multicast", floor=100)
     m = model_of(repo)
     st = Staging(repo, m)
+    import ast as _ast
+    from ..astutil import call_name as _cn, short as _short
+    for mod in repo.modules.values():
+        if not mod.rel.startswith(SCOPE) or mod.rel.startswith(SKIP) or mod.rel == "reactivex/operators/__init__.py" \
+                or mod.rel == "reactivex/__init__.py":
+            continue
+        for S in mod.root.children:
+            if not S.is_func:
+                continue
+            uses = [n for n in S.all_nodes() if isinstance(n, _ast.Call) and _cn(n) in MULTICAST_OPS
+                    and not (isinstance(n.func, _ast.Attribute) and n.func.attr in ("replay",) and False)]
+            if S.ref in EXEMPT:
+                rep.ob("E1-no-internal-multicast", S, f"exempt: {EXEMPT[S.ref]}", True, nontrivial=False)
+                continue
+            for n in uses:
+                rep.ob("E1-no-internal-multicast", S, _short(n), False,
+                       f"`{_short(n)}` inside the cold operator {S.qual}: subscriptions of one observable share the "
+                       f"multicast source/timer, so an overlapping or later subscription does not start fresh")
+            rep.ob("E1-no-internal-multicast", S, f"{S.qual}: {len(uses)} multicast calls", True, nontrivial=False)
     n_scopes = n_bind = 0
     exempt_hit = set()
     for mod in repo.modules.values():
